@@ -157,7 +157,10 @@ func runEmDiscreteMixture(cs *fw.Case, r *prng.Rand) {
 		// the summarised E-step adds log(count) to the responsibilities where the
 		// raw one repeats the observation: a different summation order; EM
 		// steps do not amplify such differences beyond the monotonicity allowance
-		allow := monoAllowance*math.Abs(b) + 2*(trD.tol[i]+trR.tol[i])
+		// every step adds a re-association error of that order to the parameters
+		// and nothing guarantees that later steps contract it (flat directions of
+		// the likelihood): the allowance grows linearly with the iteration
+		allow := float64(i+1) * (monoAllowance*math.Abs(b) + 2*(trD.tol[i]+trR.tol[i]))
 		if math.Abs(a-b) > allow && !(math.IsInf(a, -1) && math.IsInf(b, -1)) {
 			sg := sigBase
 			if trD.illCond != "" || maxRatio >= 1e2 {
